@@ -11,6 +11,7 @@ import Dmn.Lemmas.EvalSemOps
 import Dmn.Lemmas.EvalSemMore
 import Dmn.Lemmas.EvalFree
 import Dmn.Lemmas.EvalBinders
+import Dmn.Lemmas.EvalFreeSyn
 import Dmn.Gen.EvalSources
 
 /-!
@@ -1882,6 +1883,256 @@ example :
   have : k = "d" := by simpa using hk
   subst this
   simp [Scope.getEntry, Ctx.get]
+
+end Dmn.Eval
+
+/-!
+## Round 10: the sharper free-names statement — over the *syntactically free* names
+
+`freeIn G a` (`Model/EvalNames.lean`): every name `a` looks up outside the constructs of `a` that bind it is in `G`.
+The binders are the code's: the body of a `for` sees its variables and `partial`, the satisfies-expression of a
+`some` / `every` its variables, a context entry the keys of the entries before it, a function body the parameters
+of the invocation that enters it.  The binder rules of the previous section are assembled into one induction over
+all 75 node kinds in which the name set grows under the binders (`Lemmas/EvalFreeSyn.lean`, `b_evalStep`); what
+makes an iteration a binder is proved of the iteration engine itself (`iteration_contexts_bind_every_variable`).
+
+-- FULL STATEMENT (not provable of the current code):
+--   ∀ fuel a s₁ s₂, freeIn' G a → AgreeOn G s₁ s₂ → same outcome, with `freeIn'` also treating a filter
+--   as a binder of `item` and of the entries of a filtered context, and without the guard.
+-- Not provable for two reasons.  (1) Dynamic scoping of function values (finding F68), as for
+-- `eval_depends_on_free_names`: the guard on the function bodies entered stays (`evalB`, `guardB`: the body's free
+-- names are in `G` or are parameters bound by this invocation).  (2) `build_filter` evaluates the filter
+-- expression once more in the ENCLOSING scope, to see whether it is an index: `item` is looked up outside the
+-- filter as well (`filter_does_not_bind_item_counterexample`, proposed finding F-C01-filter-index-probe).  What is
+-- provable about filters is proved: every per-item evaluation binds `item` and the item's entries
+-- (`filter_item_evaluations_bind_item`), and a filter on an operand that is not a list binds `item`
+-- (`filter_binds_item_for_scalar_operand`); in `freeIn` a filter binds nothing.
+-/
+
+namespace Dmn.Eval
+open EvalM Value
+
+/-- **Every iteration context `FeelIterator::run` hands out binds every iteration variable** — for any number of
+domains of any size (no `2^63` envelope as in `run_eq_product`), ranges and non-empty lists (`Iter.Writes`: the states
+`build_for` / `build_some` / `build_every` create, `evalIteration_states`).  This is what makes `for`, `some` and
+`every` binders: a body never sees the enclosing scope's binding of a variable it declares. -/
+theorem iteration_contexts_bind_every_variable (states : List Iter.State) (cs : List Ctx)
+    (hw : ∀ st ∈ states, Iter.Writes st) (h : Iter.run states = .ok cs) :
+    ∀ c ∈ cs, ∀ st ∈ states, (Ctx.get c st.name).isSome = true :=
+  Iter.run_binds states cs hw h
+
+example : Iter.Writes (Iter.mkList "x" [.null]) ∧ Iter.Writes (Iter.mkRange "i" 3 1) :=
+  ⟨Iter.writes_mkList _ _ (by simp), Iter.writes_mkRange _ _ _⟩
+
+/-- **The induction over all trees, for any environment**: if the function-body evaluator, inside the bracket of
+an argument context, depends only on the names in `G` (`CallOk`) and the iteration engine binds the variables
+(`IterBinds`), then every syntax tree whose syntactically free names are in `G` has the same outcome in scopes
+that agree on `G` — whatever the scopes bind under the names of its iteration variables, `partial`, quantified
+variables and earlier context entries. -/
+theorem evalStep_depends_on_syntactically_free_names (G : String → Bool) (env : Env)
+    (hc : CallOk G env) (hi : IterBinds env)
+    (a : Ast) (hn : freeIn G a = true) (s₁ s₂ : Scope) (h : AgreeOn G s₁ s₂) :
+    (evalStep env a s₁).map Prod.fst = (evalStep env a s₂).map Prod.fst :=
+  (b_evalStep G env hc hi a G (fun _ hk => hk) hn).2.2 s₁ s₂ h
+
+/-- non-vacuity: the environments of the model satisfy `CallOk` and `IterBinds` (the guarded one at every fuel) -/
+example (G : String → Bool) (num : NumOps) (bp : String → List Value → Outcome Value)
+    (bn : String → List (String × Value × Nat) → Outcome Value) (n : Nat) :
+    CallOk G (mkEnvB G num bp bn Variant.code n) ∧ IterBinds (mkEnvB G num bp bn Variant.code n) :=
+  ⟨callB_ok G num bp bn Variant.code rfl n, iterBinds_code _ (mkEnvB_iter G num bp bn Variant.code n)⟩
+
+/-- **The rule for context entries**: in a context literal an entry may look up the keys of the entries written
+before it (`freeInEntries`: entry *k* is checked against `G` and the keys of entries *1..k−1*), whatever the two
+scopes bind under those keys. -/
+theorem context_binds_its_earlier_keys (G : String → Bool) (env : Env) (hc : CallOk G env) (hi : IterBinds env)
+    (es : List Ast) (hn : freeInEntries G es = true) (s₁ s₂ : Scope) (h : AgreeOn G s₁ s₂) :
+    (evalStep env (.context es) s₁).map Prod.fst = (evalStep env (.context es) s₂).map Prod.fst :=
+  evalStep_depends_on_syntactically_free_names G env hc hi (.context es) (by simpa only [freeIn] using hn) s₁ s₂ h
+
+/-- non-vacuity: `{a: d, b: a}` looks up only `d` from outside; a later entry may not be read by an earlier one. -/
+example : freeInEntries (fun k => k == "d")
+      [.contextEntry (.contextEntryKey "a") (.name "d"), .contextEntry (.contextEntryKey "b") (.name "a")] = true ∧
+    freeInEntries (fun k => k == "d")
+      [.contextEntry (.contextEntryKey "b") (.name "a"), .contextEntry (.contextEntryKey "a") (.name "d")] = false := by
+  decide
+
+/-- **The last clause of the property over the syntactically free names**: two scopes that bind alike every name
+in `G` give the same value, the same panic or the same divergence for every expression whose *free* names are in
+`G` (`freeIn`: iteration variables, `partial`, quantified variables and the keys of earlier context entries are
+bound by their constructs and may be bound in any way, or not at all, by the two scopes) — at every fuel —
+provided every function body *entered during the evaluation* has its free names in `G` or among the parameters
+that invocation binds (`hg`: the evaluator that refuses other bodies, `evalB`, does not refuse).  Proof: under
+the guard the outcome depends on `G` only (`evalB_sameOnAgree`: the induction `b_evalStep` over all node kinds with
+the name set growing under the binders, induction on fuel for the bodies), and the evaluator proper refines the
+guarded one (`eval_refinesB`). -/
+theorem eval_depends_on_syntactically_free_names (G : String → Bool) (num : NumOps)
+    (bp : String → List Value → Outcome Value) (bn : String → List (String × Value × Nat) → Outcome Value)
+    (fuel : Nat) (a : Ast) (hn : freeIn G a = true) (s₁ s₂ : Scope) (h : AgreeOn G s₁ s₂)
+    (hg : evalB G num bp bn fuel a s₁ ≠ .panic guardSite) :
+    (eval num bp bn fuel a s₁).map Prod.fst = (eval num bp bn fuel a s₂).map Prod.fst := by
+  have h0 : (evalB G num bp bn fuel a s₁).map Prod.fst = (evalB G num bp bn fuel a s₂).map Prod.fst :=
+    (evalB_sameOnAgree G num bp bn fuel a hn).2.2 s₁ s₂ h
+  have e1 : eval num bp bn fuel a s₁ = evalB G num bp bn fuel a s₁ := by
+    rcases eval_refinesB G num bp bn fuel a s₁ with hd | he
+    · exact absurd hd hg
+    · exact he
+  have e2 : eval num bp bn fuel a s₂ = evalB G num bp bn fuel a s₂ := by
+    rcases eval_refinesB G num bp bn fuel a s₂ with hd | he
+    · rw [hd] at h0
+      cases h1 : evalB G num bp bn fuel a s₁ with
+      | ok r => rw [h1] at h0; simp [Outcome.map] at h0
+      | panic p =>
+        rw [h1] at h0
+        simp only [Outcome.map, Outcome.panic.injEq] at h0
+        rw [h0] at h1
+        exact absurd h1 hg
+      | diverge => rw [h1] at h0; simp [Outcome.map] at h0
+    · exact he
+  rw [e1, e2, h0]
+
+/-- non-vacuity, formal parameters: `(function(x) x)(d)` in two scopes that agree on `d` only and bind `x`
+differently; the body `x` is entered and passes the guard because the invocation binds `x`. -/
+example (num : NumOps) (bp : String → List Value → Outcome Value)
+    (bn : String → List (String × Value × Nat) → Outcome Value) :
+    let e : Ast := .functionInvocation
+      (.functionDefinition (.formalParameters [.formalParameter (.parameterName "x") (.feelType .any)])
+        (.functionBody (.name "x") false))
+      (.positionalParameters [.name "d"])
+    (eval num bp bn 1 e [[("d", .null), ("x", .bool true)]]).map Prod.fst =
+    (eval num bp bn 1 e [[("x", .bool false)], [("d", .null)]]).map Prod.fst := by
+  intro e
+  apply eval_depends_on_syntactically_free_names (fun k => k == "d") num bp bn 1 e (by decide)
+  · intro k hk
+    have : k = "d" := by simpa using hk
+    subst this
+    simp [Scope.getEntry, Ctx.get]
+  · simp [e, evalB, mkEnvB, guardB, evalStep, evalList, bind_def, getEntry, Scope.getEntry, pure_def,
+      invokePositional, bindPositional, callFunction, bracket, push, pop, Scope.push, Scope.pop, freeIn,
+      withKeys, Ctx.get, Ctx.set]
+
+/-- non-vacuity, iteration variables, `partial`, quantified variables, context keys: trees that `namesIn` rejects
+for `G = {d}` and `freeIn` accepts; a variable is not bound in its own domain, nor in a later domain (F69). -/
+example :
+    let G : String → Bool := fun k => k == "d"
+    let forx : Ast := .for (.iterationContexts [.iterationContextSingle (.name "x") (.name "d")])
+      (.list [.name "x", .name "partial"])
+    let somey : Ast := .some (.quantifiedContexts [.quantifiedContext (.name "y") (.name "d")]) (.satisfies (.name "y"))
+    let later : Ast := .for (.iterationContexts [.iterationContextSingle (.name "x") (.name "d"),
+      .iterationContextSingle (.name "z") (.name "x")]) (.name "z")
+    freeIn G forx = true ∧ namesIn G forx = false ∧ freeIn G somey = true ∧ namesIn G somey = false ∧
+      freeIn G later = false ∧ freeIn G (.filter (.name "d") (.name "item")) = false := by
+  decide
+
+/-- **The same for every evaluation that enters no function body** (`hnd`: with no fuel for function bodies the
+evaluation does not run out of fuel): no guard is needed. -/
+theorem eval_depends_on_syntactically_free_names_partial (G : String → Bool) (num : NumOps)
+    (bp : String → List Value → Outcome Value) (bn : String → List (String × Value × Nat) → Outcome Value)
+    (fuel : Nat) (a : Ast) (hn : freeIn G a = true) (s₁ s₂ : Scope) (h : AgreeOn G s₁ s₂)
+    (hnd : eval num bp bn 0 a s₁ ≠ .diverge) :
+    (eval num bp bn fuel a s₁).map Prod.fst = (eval num bp bn fuel a s₂).map Prod.fst := by
+  have h0 : (eval num bp bn 0 a s₁).map Prod.fst = (eval num bp bn 0 a s₂).map Prod.fst :=
+    (evalB_sameOnAgree G num bp bn 0 a hn).2.2 s₁ s₂ h
+  have e1 : eval num bp bn fuel a s₁ = eval num bp bn 0 a s₁ := by
+    rcases eval_fuel_only_diverge num bp bn 0 fuel (Nat.zero_le _) a s₁ with hd | he
+    · exact absurd hd hnd
+    · exact he
+  have e2 : eval num bp bn fuel a s₂ = eval num bp bn 0 a s₂ := by
+    rcases eval_fuel_only_diverge num bp bn 0 fuel (Nat.zero_le _) a s₂ with hd | he
+    · rw [hd] at h0
+      cases h1 : eval num bp bn 0 a s₁ with
+      | ok r => rw [h1] at h0; simp [Outcome.map] at h0
+      | panic p => rw [h1] at h0; simp [Outcome.map] at h0
+      | diverge => exact absurd h1 hnd
+    · exact he
+  rw [e1, e2, h0]
+
+/-- non-vacuity: `{a: d, b: a}` in two scopes that agree on `d` and bind `a` differently, at every fuel. -/
+example (num : NumOps) (bp : String → List Value → Outcome Value)
+    (bn : String → List (String × Value × Nat) → Outcome Value) (fuel : Nat) :
+    let e : Ast := .context [.contextEntry (.contextEntryKey "a") (.name "d"), .contextEntry (.contextEntryKey "b") (.name "a")]
+    (eval num bp bn fuel e [[("a", .bool true), ("d", .null)]]).map Prod.fst =
+    (eval num bp bn fuel e [[("a", .bool false)], [("d", .null)]]).map Prod.fst := by
+  intro e
+  apply eval_depends_on_syntactically_free_names_partial (fun k => k == "d") num bp bn fuel e (by decide)
+  · intro k hk
+    have : k = "d" := by simpa using hk
+    subst this
+    simp [Scope.getEntry, Ctx.get]
+  · simp [e, eval, evalStep, evalContextEntries, bind_def, getEntry, setEntry, Scope.getEntry, Scope.setEntry, Ctx.get,
+      Ctx.set, Ctx.contains, pure_def, push, pop, Scope.push, Scope.pop, contextEntryV, List.findSome?]
+
+/-- **Every per-item evaluation of a filter binds `item` and the entries of the item**: the loop of `build_filter`
+over the items `vs` has the same outcome in scopes that agree on `G`, whatever they bind under `item` and under
+the entry names of a filtered context, if the filter expression's free names are in `G`, `item`, or — item by
+item — the keys of that item (`itemKeys`; the keys are known only when the list has been evaluated: they are
+not syntactic). -/
+theorem filter_item_evaluations_bind_item (G : String → Bool) (env : Env) (hc : CallOk G env) (hi : IterBinds env)
+    (b : Ast) (vs : List Value) (hn : ∀ v ∈ vs, freeIn (itemKeys G v) b = true)
+    (s₁ s₂ : Scope) (h : AgreeOn G s₁ s₂) :
+    (filterLoop (evalStep env b) vs s₁).map Prod.fst = (filterLoop (evalStep env b) vs s₂).map Prod.fst :=
+  (filterLoop_binds vs (fun v hv => b_evalStep G env hc hi b (itemKeys G v)
+    (fun k hk => by simp [itemKeys, hk]) (hn v hv))).2.2 s₁ s₂ h
+
+/-- non-vacuity: `item > n`-like and `item.a`-like predicates over a context item `{a: …}`: `a` is bound for the
+item that has the entry, not for a number. -/
+example : freeIn (itemKeys (fun _ => false) (.ctx [("a", .null)])) (.and (.name "item") (.name "a")) = true ∧
+    freeIn (itemKeys (fun _ => false) .null) (.and (.name "item") (.name "a")) = false := by
+  decide
+
+/-- **A filter on an operand that is not a list binds `item`** (and the operand's entries when it is a context):
+`build_filter` evaluates the filter expression for that one item only — there is no index probe in the
+enclosing scope.  `hl`: the operand never evaluates to a list. -/
+theorem filter_binds_item_for_scalar_operand (G : String → Bool) (env : Env) (hc : CallOk G env) (hi : IterBinds env)
+    (a b : Ast) (ha : freeIn G a = true) (hb : freeIn (fun k => G k || k == "item") b = true)
+    (hl : ∀ s vs t, evalStep env a s ≠ .ok (.list vs, t))
+    (s₁ s₂ : Scope) (h : AgreeOn G s₁ s₂) :
+    (evalStep env (.filter a b) s₁).map Prod.fst = (evalStep env (.filter a b) s₂).map Prod.fst := by
+  have hA := b_evalStep G env hc hi a G (fun _ hk => hk) ha
+  have hB := b_evalStep G env hc hi b (fun k => G k || k == "item") (fun k hk => by simp [hk]) hb
+  have hall : SameOnAgree G (evalStep env (.filter a b)) (evalStep env (.filter a b)) := by
+    simp only [evalStep]
+    refine sameOnAgree_bind_ret hA (fun l hret => ?_)
+    split
+    · rename_i values
+      obtain ⟨s0, t0, h0⟩ := hret
+      exact absurd h0 (hl s0 values t0)
+    · split
+      · refine sameOnAgree_bind (itemScoped_binds _ (sameOnAgree_mono ?_ hB)) (fun _ => sa_pure _)
+        intro k hk
+        simp only [itemKeys, Bool.or_eq_true] at hk ⊢
+        exact Or.inl hk
+      · exact sa_pure _
+  exact hall.2.2 s₁ s₂ h
+
+/-- non-vacuity: `true[item]` in two scopes that bind `item` differently and agree on nothing. -/
+example (env : Env) (hc : CallOk (fun _ => false) env) (hi : IterBinds env) :
+    (evalStep env (.filter (.boolean true) (.name "item")) [[("item", .null)]]).map Prod.fst =
+    (evalStep env (.filter (.boolean true) (.name "item")) [[("item", .bool false)], []]).map Prod.fst :=
+  filter_binds_item_for_scalar_operand (fun _ => false) env hc hi _ _ (by decide) (by decide)
+    (fun s vs t => by simp [evalStep, pure_def]) _ _ (fun _ hk => by simp at hk)
+
+/-- **A filter on a list does not bind `item`** (proposed finding F-C01-filter-index-probe): after the per-item
+evaluations `build_filter` evaluates the filter expression once more in the enclosing scope, and a number there
+is an index.  `[true, false][item]`: with `item` unbound outside, the items for which `item` is true — `true`
+(a singleton, unwrapped); with `item` bound to 2 outside, the second item — `false`.  The two scopes agree on
+every name that is free in the expression when a filter is read as a binder of `item`. -/
+theorem filter_does_not_bind_item_counterexample (num : NumOps) (bp : String → List Value → Outcome Value)
+    (bn : String → List (String × Value × Nat) → Outcome Value) (fuel : Nat) :
+    let e : Ast := .filter (.list [.boolean true, .boolean false]) (.name "item")
+    let s₁ : Scope := [[]]
+    let s₂ : Scope := [[("item", .num (Dec.ofNat 2))]]
+    AgreeOn (fun _ => false) s₁ s₂ ∧
+      eval num bp bn fuel e s₁ = .ok (.bool true, s₁) ∧ eval num bp bn fuel e s₂ = .ok (.bool false, s₂) := by
+  have hb : isBifName "item" = false := by decide
+  have hidx : filterIndex [Value.bool true, Value.bool false] (Dec.ofNat 2) = .bool false := by rfl
+  refine ⟨fun _ hk => by simp at hk, ?_, ?_⟩
+  · cases fuel <;>
+    simp [eval, mkEnv, evalStep, evalList, filterLoop, filterItem, bracket, bind_def, pure_def, getEntry, push, pop,
+      Scope.push, Scope.pop, Scope.getEntry, Ctx.get, Ctx.set, Value.isTrue, filterResult, hb]
+  · cases fuel <;>
+    simp [eval, mkEnv, evalStep, evalList, filterLoop, filterItem, bracket, bind_def, pure_def, getEntry, push, pop,
+      Scope.push, Scope.pop, Scope.getEntry, Ctx.get, Ctx.set, Value.isTrue, filterResult, hb,
+      Variant.code, hidx]
 
 end Dmn.Eval
 
